@@ -18,6 +18,7 @@ CONSTANTS
   Cmds = {}
   SeekRevives = TRUE
   SeekByHeard = TRUE
+  SafeTransport = TRUE
   Wide = FALSE
 VIEW View
 INVARIANTS PropertyHolds NoPanic TypeOK IndexInSlice WindowInSlice StoppedMeansDrained NoHang
